@@ -26,3 +26,186 @@ Proof.
 Qed.
 Theorem minima_generated_both : minima = dec2R Generated.Minima /\ fin c_minima /\ Rabs (rv c_minima - minima) <= / IZR (2 ^ 87).
 Proof. destruct c_minima_is_generated as [F B]. rewrite <- minima_is_generated in B. exact (conj minima_is_generated (conj F B)). Qed.
+
+(* ======================================================================================================================================
+   The float64 helpers of common / common/spatial as REGENERATED from the Go source (generated/GeneratedFS.v; struct values are tuples;
+   math.Hypot/Sin/Cos are fields of the record GeneratedF.libm) — the main binary64 results of VecExact.v, FloatId.v, MatCtor.v, PointLaws.v
+   restated over those generated definitions (through GenEqFSpatial.gen_*_eq). Not regenerated, hence not covered here: UniqueAppend,
+   MaxPoint, MinPoint (slices of pointers, range loops): for them the tie to the source remains the bit-for-bit differential run only.
+   ====================================================================================================================================== *)
+From SIDGen Require GeneratedF GeneratedFS.
+From SID Require Import FloatId MatCtor GenEqFSTac GenEqFSCommon GenEqFSR3 GenEqFSVector GenEqFSMatrix GenEqFSPoint GenEqFSLine GenEqFSQuat.
+Import List. Import ListNotations.
+
+Notation f3 := (pfloat * pfloat * pfloat)%type.
+Notation f33 := (f3 * f3 * f3)%type.
+(* tuples of the generated side as the records of the models: tv (vt t) = t, tm (mt t) = t *)
+Definition vt (t : f3) : fvec := let '(a, b, c) := t in FV a b c.
+Definition mt (t : f33) : fmat := let '((a, b, c), (d, e, f), (g, h, i)) := t in FM a b c d e f g h i.
+Lemma tv_vt t : tv (vt t) = t.
+Proof. destruct t as [[a b] c]. reflexivity. Qed.
+Lemma tm_mt t : tm (mt t) = t.
+Proof. destruct t as [[[[a b] c] [[d e] f]] [[g h] i]]. reflexivity. Qed.
+Lemma vt_tv v : vt (tv v) = v.
+Proof. destruct v. reflexivity. Qed.
+Lemma mt_tm a : mt (tm a) = a.
+Proof. destruct a. reflexivity. Qed.
+
+(* bridges: each generated function on tuples is the model on the corresponding records (the gen_ lemmas, with tuples opened) *)
+Ltac opent := repeat match goal with
+  | t : f3 |- _ => let a := fresh "a" in let b := fresh "b" in let c := fresh "c" in destruct t as [[a b] c]
+  | t : f33 |- _ => let r0 := fresh "r" in let r1 := fresh "r" in let r2 := fresh "r" in destruct t as [[r0 r1] r2]
+  end.
+Lemma B_dot a b : GeneratedFS.Vector3_Dot a b = fdot (vt a) (vt b).
+Proof. opent. exact (gen_Vector3_Dot_eq (FV _ _ _) (FV _ _ _)). Qed.
+Lemma B_cross a b : GeneratedFS.Vector3_Cross a b = tv (fcross (vt a) (vt b)).
+Proof. opent. exact (gen_Vector3_Cross_eq (FV _ _ _) (FV _ _ _)). Qed.
+Lemma B_l1 a : GeneratedFS.Vector3_L1Norm a = fl1norm (vt a).
+Proof. opent. exact (gen_Vector3_L1Norm_eq (FV _ _ _)). Qed.
+Lemma B_mul a b : GeneratedFS.Matrix3_Mul a b = tm (fmmul (mt a) (mt b)).
+Proof. opent. exact (gen_Matrix3_Mul_eq (FM _ _ _ _ _ _ _ _ _) (FM _ _ _ _ _ _ _ _ _)). Qed.
+Lemma B_mulvec a v : GeneratedFS.Matrix3_MulVec a v = tv (fmulvec (mt a) (vt v)).
+Proof. opent. exact (gen_Matrix3_MulVec_eq (FM _ _ _ _ _ _ _ _ _) (FV _ _ _)). Qed.
+Lemma B_unit : GeneratedFS.NewUnitMatrix3 = tm fmunit.
+Proof. exact gen_NewUnitMatrix3_eq. Qed.
+Lemma B_newline p q : GeneratedFS.NewLineFromPoints p q = (p, tv (fvec_from_points (vt p) (vt q))).
+Proof. opent. exact (gen_NewLineFromPoints_eq (FV _ _ _) (FV _ _ _)). Qed.
+Lemma B_topoint p d t : GeneratedFS.Line3_ToPoint (p, d) t = tv (fline_to_point (vt p) (vt d) t).
+Proof. opent. exact (gen_Line3_ToPoint_eq (FV _ _ _) (FV _ _ _) t). Qed.
+Lemma B_start p d : GeneratedFS.Line3_Start (p, d) = p.
+Proof. opent. exact (gen_Line3_Start_eq (FV _ _ _) (FV _ _ _)). Qed.
+Lemma B_isclose p q eps : GeneratedFS.Point3_IsClose p q eps = fis_close (vt p) (vt q) eps.
+Proof. opent. exact (gen_Point3_IsClose_eq (FV _ _ _) (FV _ _ _) eps). Qed.
+Lemma B_rotate M a b : GeneratedFS.RotateBetweenVector M a b =
+  tq (frotate_between (GeneratedF.m_hypot M) (GeneratedF.m_sin M) (GeneratedF.m_cos M) (vt a) (vt b)).
+Proof. opent. exact (gen_RotateBetweenVector_eq M (FV _ _ _) (FV _ _ _)). Qed.
+Lemma B_axis_angle M a ang : GeneratedFS.QuatFromAxisAngle M a ang =
+  tq (fquat_axis_angle (GeneratedF.m_hypot M) (GeneratedF.m_sin M) (GeneratedF.m_cos M) (vt a) ang).
+Proof. opent. exact (gen_QuatFromAxisAngle_eq M (FV _ _ _) ang). Qed.
+
+(* ---- line3.go ---- *)
+Theorem gen_line_start p q : GeneratedFS.Line3_Start (GeneratedFS.NewLineFromPoints p q) = p.
+Proof. rewrite B_newline, B_start. reflexivity. Qed.
+Theorem gen_line_to_point_0 p d : finv (vt p) -> finv (vt d) -> veqR (vt (GeneratedFS.Line3_ToPoint (p, d) 0%float)) (vt p).
+Proof. intros Fp Fd. rewrite B_topoint, vt_tv. now apply fline_to_point_0. Qed.
+Theorem gen_line_to_point_1 p q : finv (vt p) -> finv (vt q) ->
+  (Rabs (rnd (rv (fx (vt q)) - rv (fx (vt p)))) < emaxR /\ Rabs (rnd (rv (fx (vt p)) + rnd (rv (fx (vt q)) - rv (fx (vt p))))) < emaxR) ->
+  (Rabs (rnd (rv (fy (vt q)) - rv (fy (vt p)))) < emaxR /\ Rabs (rnd (rv (fy (vt p)) + rnd (rv (fy (vt q)) - rv (fy (vt p))))) < emaxR) ->
+  (Rabs (rnd (rv (fz (vt q)) - rv (fz (vt p)))) < emaxR /\ Rabs (rnd (rv (fz (vt p)) + rnd (rv (fz (vt q)) - rv (fz (vt p))))) < emaxR) ->
+  let r := vt (GeneratedFS.Line3_ToPoint (GeneratedFS.NewLineFromPoints p q) 1%float) in
+  finv r /\
+  Rabs (rv (fx r) - rv (fx (vt q))) <= bpow radix2 (-51) * (Rabs (rv (fx (vt p))) + Rabs (rv (fx (vt q)))) /\
+  Rabs (rv (fy r) - rv (fy (vt q))) <= bpow radix2 (-51) * (Rabs (rv (fy (vt p))) + Rabs (rv (fy (vt q)))) /\
+  Rabs (rv (fz r) - rv (fz (vt q))) <= bpow radix2 (-51) * (Rabs (rv (fz (vt p))) + Rabs (rv (fz (vt q)))).
+Proof.
+  intros Fp Fq X Y Z. rewrite B_newline, B_topoint, !vt_tv. exact (fline_to_point_1 (vt p) (vt q) Fp Fq X Y Z).
+Qed.
+Theorem gen_line_exact_on_integers p q t mp mq mt' : ibv K (vt p) mp -> ibv K (vt q) mq -> ib K t mt' ->
+  exists B, ibv B (vt (GeneratedFS.Line3_ToPoint (GeneratedFS.NewLineFromPoints p q) t)) (zadd mp (zscale mt' (zsub mq mp))).
+Proof. intros Hp Hq Ht. rewrite B_newline, B_topoint, !vt_tv. now apply fline_exact. Qed.
+
+(* ---- matrix3.go ---- *)
+Theorem gen_unit_matrix_neutral a : finm (mt a) ->
+  meqR (mt (GeneratedFS.Matrix3_Mul GeneratedFS.NewUnitMatrix3 a)) (mt a) /\ meqR (mt (GeneratedFS.Matrix3_Mul a GeneratedFS.NewUnitMatrix3)) (mt a).
+Proof.
+  intros F. rewrite !B_mul, B_unit, !mt_tm. split; [now apply fmmul_unit_l|now apply fmmul_unit_r].
+Qed.
+Theorem gen_unit_matrix_fixes_vectors v : finv (vt v) -> veqR (vt (GeneratedFS.Matrix3_MulVec GeneratedFS.NewUnitMatrix3 v)) (vt v).
+Proof. intros F. rewrite B_mulvec, B_unit, mt_tm, vt_tv. now apply fmulvec_unit. Qed.
+(* NewMatrix3 is row-major and its product with the basis vector e_k is the k-th column (finite entries; values, see MatCtor.v) *)
+Theorem gen_new_matrix3_basis a b c d e f g h i : finm (FM a b c d e f g h i) ->
+  GeneratedFS.NewMatrix3 a b c d e f g h i = ((a, b, c), (d, e, f), (g, h, i)) /\
+  veqR (vt (GeneratedFS.Matrix3_MulVec (GeneratedFS.NewMatrix3 a b c d e f g h i) (1, 0, 0)%float)) (FV a d g) /\
+  veqR (vt (GeneratedFS.Matrix3_MulVec (GeneratedFS.NewMatrix3 a b c d e f g h i) (0, 1, 0)%float)) (FV b e h) /\
+  veqR (vt (GeneratedFS.Matrix3_MulVec (GeneratedFS.NewMatrix3 a b c d e f g h i) (0, 0, 1)%float)) (FV c f i).
+Proof.
+  intros F. rewrite gen_NewMatrix3_eq. split; [reflexivity|]. rewrite !B_mulvec, !mt_tm, !vt_tv.
+  exact (fnew_matrix3_basis a b c d e f g h i F).
+Qed.
+Theorem gen_matrix_product_associative_on_integers a b c ma mb mc : ibm K (mt a) ma -> ibm K (mt b) mb -> ibm K (mt c) mc ->
+  exists B, ibm B (mt (GeneratedFS.Matrix3_Mul (GeneratedFS.Matrix3_Mul a b) c)) (zmmul (zmmul ma mb) mc) /\
+            ibm B (mt (GeneratedFS.Matrix3_Mul a (GeneratedFS.Matrix3_Mul b c))) (zmmul (zmmul ma mb) mc).
+Proof. intros Ha Hb Hc. rewrite !B_mul, !mt_tm. now apply fmmul_assoc_exact. Qed.
+Theorem gen_matrix_product_agrees_with_application_on_integers a b v ma mb mv : ibm K (mt a) ma -> ibm K (mt b) mb -> ibv K (vt v) mv ->
+  exists B, ibv B (vt (GeneratedFS.Matrix3_MulVec (GeneratedFS.Matrix3_Mul a b) v)) (zmulvec (zmmul ma mb) mv) /\
+            ibv B (vt (GeneratedFS.Matrix3_MulVec a (GeneratedFS.Matrix3_MulVec b v))) (zmulvec (zmmul ma mb) mv).
+Proof. intros Ha Hb Hv. rewrite !B_mulvec, !B_mul, !mt_tm, !vt_tv. now apply fmulvec_fmmul_exact. Qed.
+
+(* ---- vector3.go (and the gonum r3 callees) ---- *)
+Theorem gen_dot_cross_exact_on_integers a b ma mb : ibv K (vt a) ma -> ibv K (vt b) mb ->
+  ib (3 * (K * K)) (GeneratedFS.Vector3_Dot a b) (zdot ma mb) /\ ibv (2 * (K * K)) (vt (GeneratedFS.Vector3_Cross a b)) (zcross ma mb) /\
+  is_int (GeneratedFS.Vector3_Dot a (GeneratedFS.Vector3_Cross a b)) 0 /\ is_int (GeneratedFS.Vector3_Dot b (GeneratedFS.Vector3_Cross a b)) 0.
+Proof.
+  intros Ha Hb. rewrite !B_dot, !B_cross, !vt_tv.
+  destruct (fdot_fcross_exact_K _ _ _ _ Ha Hb) as [D C]. destruct (fcross_perp_exact _ _ _ _ Ha Hb) as [P1 P2]. auto.
+Qed.
+Theorem gen_l1norm_exact_on_integers a ma : ibv K (vt a) ma ->
+  is_int (GeneratedFS.Vector3_L1Norm a) (Z.abs (zx ma) + Z.abs (zy ma) + Z.abs (zz ma)).
+Proof. intros Ha. rewrite B_l1. now apply fl1norm_exact. Qed.
+
+(* ---- common.AlmostEqual, Point3.IsClose ---- *)
+Theorem gen_almost_equal_value x y tol : fin x -> fin y -> fin tol -> Rabs (rnd (rv x - rv y)) < emaxR ->
+  (GeneratedFS.AlmostEqual x y tol = true <-> rv x = rv y \/ Rabs (rnd (rv x - rv y)) <= rv tol).
+Proof. rewrite gen_AlmostEqual_eq. apply almost_equal_value. Qed.
+Theorem gen_almost_equal_complete x y tol : fin x -> fin y -> fin tol -> Rabs (rnd (rv x - rv y)) < emaxR ->
+  Rabs (rv x - rv y) <= rv tol -> GeneratedFS.AlmostEqual x y tol = true.
+Proof. rewrite gen_AlmostEqual_eq. apply almost_equal_complete. Qed.
+Theorem gen_almost_equal_refl_sym x y tol : fin x -> fin y -> fin tol -> Rabs (rnd (rv x - rv y)) < emaxR ->
+  GeneratedFS.AlmostEqual x x tol = true /\ GeneratedFS.AlmostEqual x y tol = GeneratedFS.AlmostEqual y x tol.
+Proof. intros Fx Fy Ft Ho. rewrite !gen_AlmostEqual_eq. split; [now apply almost_equal_refl|now apply almost_equal_sym]. Qed.
+Theorem gen_is_close_refl p eps : finv (vt p) -> GeneratedFS.Point3_IsClose p p eps = true.
+Proof. intros (A & B & C). rewrite B_isclose. now apply fis_close_refl. Qed.
+
+(* ---- quat.go: the threshold and the two recorded defects, evaluated through the GENERATED RotateBetweenVector ---- *)
+(* a concrete math library: Hypot computed naively as sqrt(x*x + y*y); Sin and Cos return at pi/2 (= float64(math.Pi) * 0.5) the values Go's
+   math package returns there (1 and 6.123233995736757e-17) and NaN elsewhere; the other functions are not called by these helpers *)
+Definition nanf (_ : pfloat) : pfloat := nan.
+Definition nanf2 (_ _ : pfloat) : pfloat := nan.
+Definition libm0 : GeneratedF.libm :=
+  GeneratedF.mk_libm nanf nanf nanf
+    (fun x => if (x =? c_pi * c_half)%float then 0x1.1a62633145c00p-54%float else nan)
+    nanf nanf nanf nanf nanf nanf
+    (fun x => if (x =? c_pi * c_half)%float then 1%float else nan)
+    nanf nanf nanf nanf nanf nanf2
+    (fun x y => sqrt (x * x + y * y)%float)
+    nanf2 nanf2.
+Definition dq_of_tuple (q : pfloat * pfloat * pfloat * pfloat) : option dquat :=
+  let '(w, x, y, z) := q in
+  match dy_of w, dy_of x, dy_of y, dy_of z with Some a, Some b, Some c, Some d => Some (a, b, c, d) | _, _, _, _ => None end.
+Definition dv_of_tuple (v : f3) : option dvec := dvec_of (vt v).
+(* verdicts of the run-time judges of DC20.d_rotate on the generated function's own output *)
+Definition rot_verdicts (M : GeneratedF.libm) (a b : f3) : option (bool * bool * bool * bool * bool * bool) :=
+  match dq_of_tuple (GeneratedFS.RotateBetweenVector M a b), dv_of_tuple a, dv_of_tuple b with
+  | Some q, Some da, Some db =>
+      Some (check_rotation q da db, frotate_fallback (GeneratedF.m_hypot M) (vt a) (vt b), check_half_turn q da,
+            check_direction_loose_norm q da db, exactly_opposite da db, unit_quat q)
+  | _, _, _ => None
+  end.
+(* finding quat_fallback_half_turn: (1,0,0) -> (-1,1e-6,0): fallback branch taken, a unit quaternion turning a onto -a, law violated *)
+Theorem gen_rotate_half_turn_witness :
+  rot_verdicts libm0 (1, 0, 0)%float (-1, 0x1.0c6f7a0b5ed8dp-20, 0)%float = Some (false, true, true, false, false, true).
+Proof. vm_compute. reflexivity. Qed.
+(* finding quat_norm_cancellation: (1,0,0) -> (-1,3e-5,0): generic branch, direction right within 2^-30, unit norm lost (but within 2^-16) *)
+Theorem gen_rotate_cancellation_witness :
+  rot_verdicts libm0 (1, 0, 0)%float (-1, 0x1.f75104d551d69p-16, 0)%float = Some (false, false, false, true, false, false).
+Proof. vm_compute. reflexivity. Qed.
+(* exactly opposite vectors along -z / +z (second fallback axis) and a generic pair: the law holds on the generated function's output *)
+Theorem gen_rotate_opposite_and_generic_ok :
+  rot_verdicts libm0 (0, 0, -2)%float (0, 0, 3)%float = Some (true, true, true, true, true, true) /\
+  rot_verdicts libm0 (1, 2, 2)%float (2, -1, 2)%float = Some (true, false, false, true, false, true).
+Proof. split; vm_compute; reflexivity. Qed.
+(* the generated function takes its fallback branch exactly on the model's threshold test, with the regenerated constant (c_minima_is_generated) *)
+Theorem gen_rotate_branches M a b :
+  GeneratedFS.RotateBetweenVector M a b =
+  tq (frotate_between (GeneratedF.m_hypot M) (GeneratedF.m_sin M) (GeneratedF.m_cos M) (vt a) (vt b)).
+Proof. exact (B_rotate M a b). Qed.
+(* non-vacuity of the finiteness hypotheses above *)
+Example gen_hypotheses_inhabited :
+  finm (FM 1 2 3 4 5 6 7 8 9) /\ finv (vt (1, 2, 3)%float) /\ ibv K (vt (3, -7, 3)%float) (ZV 3 (-7) 3).
+Proof.
+  destruct three_is_int as [T3 T7].
+  split; [|split].
+  - unfold finm; cbn [f00 f01 f02 f10 f11 f12 f20 f21 f22]. repeat split; unfold fin; rewrite is_finite_Prim2B; reflexivity.
+  - unfold finv, vt; cbn [fx fy fz]. repeat split; unfold fin; rewrite is_finite_Prim2B; reflexivity.
+  - unfold ibv, vt; cbn [fx fy fz zx zy zz]. exact (conj T3 (conj T7 T3)).
+Qed.
